@@ -90,3 +90,17 @@ Definition prop_timeout (input impl : val) : option Z :=
   if val_eqb impl (vopt_Z (spec_decode (as_S input))) then None else Some 1.
 
 Definition chk_c12_decode : val -> val := mk_chk run_timeout prop_timeout.
+
+(* ---- enforcement part: input ( entry shape timeout-ms ) ; impl ( deadline-seen-by-target-ok ended-in-time code ).
+   What the LTS theorems (c12_*, c02_progress) say about it: the target sees the client's deadline, the call ends when the
+   deadline fires although both sides are idle / the target is unreachable / mid-stream, with DeadlineExceeded. ---- *)
+Definition run_enforce (v : val) : val := VL [VN 1; VN 1; VN 4].
+(* 1: the target observed no deadline / a later one  2: the call outlived its deadline (or ended early)  3: it did not end with DeadlineExceeded *)
+Definition prop_enforce (input impl : val) : option Z :=
+  if negb (as_bool (nthv 0 impl)) then Some 1
+  else if negb (as_bool (nthv 1 impl)) then Some 2
+  else if Z.eqb (as_Z (nthv 2 impl)) 4 then None else Some 3.
+Definition chk_c12_enforce : val -> val := mk_chk run_enforce prop_enforce.
+
+(* ctxWithHalvedDeadline: the connection wait gets half of what is left, never more than the call has *)
+Definition halved_deadline (now d : Z) : Z := now + (d - now) / 2.
